@@ -35,7 +35,11 @@ impl Decoder for BlockCodec {
         match self.decode(buf)? {
             Some(frame) => Ok(Some(frame)),
             None => {
-                if buf.is_empty() {
+                // Like the blocking reader, which takes a failure to read a whole block header
+                // as the end of the stream, a trailing fragment that is shorter than a block
+                // header is dropped.
+                if buf.len() < BGZF_HEADER_SIZE {
+                    buf.clear();
                     Ok(None)
                 } else {
                     Ok(Some(buf.split().freeze()))
